@@ -2,6 +2,7 @@ package pcache
 
 import (
 	"context"
+	"github.com/ipni/go-libipni/find/model"
 
 	"github.com/libp2p/go-libp2p/core/peer"
 )
@@ -224,18 +225,40 @@ func VerifC07_MissFetchVsRefresh() {
 	// the refresh brings P to time 2; concurrently an unknown provider Q is looked up
 	w.srcs[0].content["P"] = c06entry{present: true, ti: 2}
 	done := make(chan struct{}, 2)
+	// (Q is unknown to the sources — a negative entry — or known to the second
+	// source only by lookup: the refresh in this history does not list it)
+	qKnown := verif_Bool("lookedUpProviderExists")
+	var qGot *model.ProviderInfo
+	if qKnown {
+		w.srcs[1].lookupOnly = map[peer.ID]c06entry{"Q": {present: true, ti: 1}}
+	}
 	go func() {
 		w.cx.cancelled = false
 		_ = w.pc.Refresh(w.cx)
 		done <- struct{}{}
 	}()
 	go func() {
-		_, _ = w.pc.Get(context.Background(), "Q") // miss: fetches, caches a negative entry
+		qGot, _ = w.pc.Get(context.Background(), "Q") // miss: fetches, caches the answer
 		done <- struct{}{}
 	}()
 	<-done
 	<-done
 	verif_Reach("both done")
+	if qKnown {
+		verif_Assert(qGot != nil, "the lookup miss found the provider")
+		// what the miss-fetch cached and returned stays cached when the refresh that
+		// overlapped with it completes: no new source query, still listed
+		before := w.fetches()
+		again, aerr := w.pc.Get(context.Background(), "Q")
+		verif_Assert(aerr == nil && again != nil && w.fetches() == before, "a provider cached by a lookup miss is not dropped by a refresh that overlapped with the miss-fetch")
+		inList := false
+		for _, pi := range w.pc.List() {
+			if pi.AddrInfo.ID == "Q" {
+				inList = true
+			}
+		}
+		verif_Assert(inList, "and it is listed")
+	}
 	got, err := w.pc.Get(context.Background(), "P")
 	verif_Assert(err == nil && got != nil, "the cached provider is still there")
 	if got != nil {
@@ -248,4 +271,48 @@ func VerifC07_MissFetchVsRefresh() {
 		}
 	}
 	verif_Assert(n == 1, "the refreshed provider is listed once")
+}
+
+// C07 ("every read observes the cache as of some completed update"): a refresh
+// that was cancelled part-way has staged a provider the readers do not see
+// yet. A lookup of that provider (a miss) returns it — and from then on the
+// cache holds it like any other cached provider: it is listed, the next lookup
+// is answered from the cache without querying the sources, and the record does
+// not go backwards.
+func VerifC07_LookupOfStagedProvider() {
+	old := c06pids
+	c06pids = []peer.ID{"P"}
+	defer func() { c06pids = old }()
+	w := c06new()
+	known := verif_Bool("providerKnownBefore")
+	if known {
+		w.seed() // P at time 1
+	}
+	// the cancelled refresh: s1 reports P (newer if it was known), s2 finds the context cancelled
+	w.srcs[0].content["P"] = c06entry{present: true, ti: 2}
+	w.srcs[1].fail, w.srcs[1].cancel = true, true
+	w.cx.cancelled = false
+	verif_Assert(w.pc.Refresh(w.cx) != nil, "the cancelled refresh reports the cancellation")
+	w.srcs[1].fail, w.srcs[1].cancel = false, false
+	got, err := w.pc.Get(context.Background(), "P")
+	verif_Reach("looked up")
+	verif_Assert(err == nil && got != nil, "the lookup returns the provider")
+	if got == nil {
+		return
+	}
+	first := c06timeIdx(got.LastAdvertisementTime)
+	before := w.fetches()
+	again, aerr := w.pc.Get(context.Background(), "P")
+	verif_Assert(aerr == nil && again != nil && w.fetches() == before, "a provider the cache returned is cached: the next lookup does not query the sources")
+	if again != nil {
+		verif_Assert(c06timeIdx(again.LastAdvertisementTime) >= first, "successive reads never go backwards")
+	}
+	listed := false
+	for _, pi := range w.pc.List() {
+		if pi.AddrInfo.ID == "P" {
+			listed = true
+			verif_Assert(c06timeIdx(pi.LastAdvertisementTime) >= first, "the listing is not older than what a lookup returned")
+		}
+	}
+	verif_Assert(listed, "a provider the cache returned is listed")
 }
